@@ -63,6 +63,14 @@ func c12Plan(tier string, seed uint64) (jobs []rt.Job) {
 	for p := 0; p < nn; p++ {
 		add("ntt", float64(cn)*0.002, map[string]interface{}{"n": cn, "extreme": p == 0})
 	}
+	// the two transforms on their own, against the evaluation definition, over the whole documented input range |a| < q
+	nt, ct := 2, 120
+	if !q {
+		nt, ct = 16, 1500
+	}
+	for p := 0; p < nt; p++ {
+		add("transform", float64(ct)*0.004, map[string]interface{}{"n": ct, "extreme": p == 0})
+	}
 	nv := 4
 	if !q {
 		nv = 32
@@ -346,7 +354,158 @@ func c12Run(j *rt.Job, seed uint64, r *rt.Rec) {
 		c12NTT(j, rng, r)
 	case "matvec":
 		c12MatVec(j, rng, r)
+	case "transform":
+		c12Transform(j, rng, r)
 	}
+}
+
+// The transforms by definition: ntt(a)[2k] = a(r_k), ntt(a)[2k+1] = a(-r_k) with r_k = 1753^brv8(128+k) mod q
+// (CRYSTALS-Dilithium specification, section 2.2 / reference ntt.c), and invNTTToMont(x) = 2^32 * ntt^-1(x).
+var c12RootTab [256]int64
+
+func c12Roots() *[256]int64 {
+	if c12RootTab[0] == 0 {
+		pow := func(b, e int64) int64 {
+			r := int64(1)
+			for ; e > 0; e >>= 1 {
+				if e&1 == 1 {
+					r = r * b % dilQ
+				}
+				b = b * b % dilQ
+			}
+			return r
+		}
+		for k := 0; k < 128; k++ {
+			v, rv := 128+k, 0
+			for b := 0; b < 8; b++ {
+				rv |= ((v >> b) & 1) << (7 - b)
+			}
+			root := pow(1753, int64(rv))
+			c12RootTab[2*k] = root
+			c12RootTab[2*k+1] = dilQ - root
+		}
+	}
+	return &c12RootTab
+}
+
+func c12EvalAt(p *[256]int32, x int64) int64 {
+	acc := int64(0)
+	for i := 255; i >= 0; i-- {
+		acc = mod(acc*x + int64(p[i]))
+	}
+	return acc
+}
+
+// c12NTTDirect: every output coefficient of ntt(a) is congruent to a evaluated at the corresponding root.
+func c12NTTDirect(a [256]int32) string {
+	h := a
+	dilithium.VerifNTT(&h)
+	roots := c12Roots()
+	for k := range h {
+		if want := c12EvalAt(&a, roots[k]); mod(int64(h[k])) != want {
+			return fmt.Sprintf("ntt(a)[%d] = %d (mod q: %d), a evaluated at the root %d gives %d", k, h[k], mod(int64(h[k])), roots[k], want)
+		}
+	}
+	return ""
+}
+
+// c12InvNTTDirect: y = invNTTToMont(x) for |x_i| < q lies in (-q, q) and is the polynomial whose evaluations are 2^32 * x.
+func c12InvNTTDirect(x [256]int32) string {
+	y := x
+	dilithium.VerifInvNTTToMont(&y)
+	roots := c12Roots()
+	const mont = (int64(1) << 32) % dilQ
+	for k := range y {
+		if int64(y[k]) <= -dilQ || int64(y[k]) >= dilQ {
+			return fmt.Sprintf("invNTTToMont(x)[%d] = %d, outside (-q, q)", k, y[k])
+		}
+	}
+	for k := range y {
+		if got, want := c12EvalAt(&y, roots[k]), mod(mod(int64(x[k]))*mont); got != want {
+			return fmt.Sprintf("invNTTToMont(x) evaluated at root %d (slot %d) gives %d, definition 2^32*x[%d] mod q = %d (x[%d] = %d, sum of inputs %d)", roots[k], k, got, k, want, k, x[k], c12Sum(&x))
+		}
+	}
+	return ""
+}
+
+func c12Sum(p *[256]int32) (s int64) {
+	for _, v := range p {
+		s += int64(v)
+	}
+	return
+}
+
+func c12Transform(j *rt.Job, rng *rt.Rand, r *rt.Rec) {
+	check := func(a [256]int32, label string) bool {
+		r.Eval(2)
+		if why := c12NTTDirect(a); why != "" {
+			r.Violate("C12/ntt", why+" ("+label+")", c12Case{Kind: "c12", Fn: "ntt-direct", PA: a[:]}, "", "")
+			return false
+		}
+		if why := c12InvNTTDirect(a); why != "" {
+			r.Violate("C12/invNTTToMont", why+" ("+label+")", c12Case{Kind: "c12", Fn: "invntt-direct", PA: a[:]}, "", "")
+			return false
+		}
+		r.Count("transforms_"+label, 2)
+		r.Distinct(label, rt.Digest(i32bytes(a[:])))
+		return true
+	}
+	if j.Bool("extreme") {
+		// every coefficient at an end of the documented range, of reduce32's range, and mixtures
+		vals := []int32{dilQ - 1, -(dilQ - 1), 6283008, -6283009, dilQ - 2, (dilQ - 1) / 2, -(dilQ - 1) / 2, 1 << 22, -(1 << 22), 1, -1, 0}
+		for _, v := range vals {
+			for _, w := range vals {
+				for _, period := range []int{1, 2, 128, 256} {
+					var p [256]int32
+					for i := range p {
+						p[i] = v
+						if (i/period)%2 == 1 {
+							p[i] = w
+						}
+					}
+					if !check(p, "extreme") {
+						return
+					}
+				}
+			}
+		}
+		for pos := 0; pos < 256; pos++ {
+			for _, v := range []int32{dilQ - 1, -(dilQ - 1), 1} {
+				var p [256]int32
+				p[pos] = v
+				if !check(p, "spike") {
+					return
+				}
+			}
+		}
+	}
+	for t := 0; t < j.Int("n"); t++ {
+		var p [256]int32
+		kind := t % 6
+		for i := range p {
+			switch kind {
+			case 0: // whole range (-q, q)
+				p[i] = int32(rng.Intn(2*dilQ-1)) - (dilQ - 1)
+			case 1: // within 8192 of q-1
+				p[i] = dilQ - 1 - int32(rng.Intn(8192))
+			case 2: // within 8192 of -(q-1)
+				p[i] = -(dilQ - 1) + int32(rng.Intn(8192))
+			case 3: // either end
+				p[i] = dilQ - 1 - int32(rng.Intn(64))
+				if rng.Intn(2) == 0 {
+					p[i] = -p[i]
+				}
+			case 4: // what polyVecKReduce leaves: [-6283009, 6283008]
+				p[i] = int32(rng.Intn(2*6283009)) - 6283009
+			case 5: // standard representatives
+				p[i] = int32(rng.Intn(dilQ))
+			}
+		}
+		if !check(p, fmt.Sprintf("range_%d", kind)) {
+			return
+		}
+	}
+	r.Sample(map[string]interface{}{"fn": "ntt(a)[k] == a(root_k); invNTTToMont(x) in (-q,q) and == 2^32 * ntt^-1(x)", "polynomials": j.Int("n"), "extreme": j.Bool("extreme"), "input_range": "|a_i| < q"})
 }
 
 // polynomial generators within the bounds the signing code meets
@@ -526,6 +685,14 @@ func c12Replay(cs map[string]interface{}) (bool, string) {
 		copy(a[:], c.PA)
 		copy(b[:], c.PB)
 		why := c12Product(a, b)
+		return why != "", why
+	case "ntt-direct", "invntt-direct":
+		var a [256]int32
+		copy(a[:], c.PA)
+		why := c12NTTDirect(a)
+		if c.Fn == "invntt-direct" {
+			why = c12InvNTTDirect(a)
+		}
 		return why != "", why
 	case "polyChkNorm":
 		var p [256]int32
